@@ -59,7 +59,7 @@ PROBES = ["worker_stalled", "subtask_of_other_task", "retry_exhausted", "retry_t
 
 def plan(tier: str) -> list[dict]:
     q = tier == "quick"
-    return [{"stratum": "programs", "runs": 160 if q else 8000, "params": {}, "chunk": 10 if q else 200}]
+    return [{"stratum": "programs", "runs": 320 if q else 10000, "params": {}, "chunk": 10 if q else 200}]
 
 
 def warmup() -> None:
@@ -144,7 +144,7 @@ def _run_dist(seed: int, stack: str, spec: dict, flavour: str, opts: dict) -> tu
             # preceded by a short stall (so each window between two of its effects is held open once per run);
             # otherwise one long stall at the K-th yield of the workers
             slow_handover = prng.random() < 0.6
-            place_fn = prng.choice(["set_invocation_retry", "set_invocation_retry", "reroute_invocations", "register_new_invocations", "set_invocation_exception", "set_invocation_result"])
+            place_fn = prng.choice(["set_invocation_retry", "set_invocation_retry", "set_invocation_retry", "reroute_invocations", "register_new_invocations", "set_invocation_exception", "set_invocation_result"])
             short = prng.choice([0.03, 0.1])
             if os.environ.get("C19_STALL"):  # debugging aid: "function:seconds"
                 slow_handover = True
@@ -239,6 +239,10 @@ def run(seed: int, params: dict, replay: dict | None = None) -> dict:
         spec = gen.gen_prog(rng, names, depth=2, p_fail=0.3, excs=excs, allow_group=False)
         for n in gen.nodes(spec):
             n.pop("fail_after_kids", None)
+    elif rng.random() < 0.4:
+        # retry-heavy variant: small programs, most nodes fail more often than max_retries allows
+        max_retries = rng.choice([1, 1, 2])
+        spec = gen.gen_prog(rng, names, depth=1, p_fail=0.7, max_fail=3, excs=("retry", "retry", "retriable", "sim"), two_tasks=True)
     else:
         spec = gen.gen_prog(rng, names, depth=2, p_fail=0.3, excs=excs, two_tasks=True)
     opts = _options(max_retries, retry_for)
